@@ -280,6 +280,6 @@ func init() {
 		Rule: "manifest documents are written by the harness: field-wise (exhaustive over a 30-name hostile local-dir alphabet x {one package, alias pair of equal-length addresses, duplicate source}), PRNG documents (format numbers, valid / invalid sources, registry sections, odd versions, wrong JSON types) and manifests of real builds mutated at JSON-structure and byte level. " +
 			"When OpenDir accepts a document: no package may name a directory with a separator / '.' / '..' / empty; every LocalPathFor* answer for every listed package and registry version x sub-paths must be a proper descendant of the root; for 8 path shapes inside every package directory (absolute and relative to the working directory) the two lookups must invert each other and be stable; 7 foreign paths (root, manifest file, parent, sibling, sibling sharing the root's name prefix, unknown directory, '/') must be refused. non-trivial = the document was accepted; distinct = document",
 		Assumptions: []string{"the harness decodes the document leniently with encoding/json to learn which directory names it contains"},
-		Phases:      []*fw.Phase{fieldwise, random, mutated},
+		Phases:      []*fw.Phase{fieldwise, random, mutated, nativeFuzzPhase("native-fuzz-opendir-lookups", "FuzzOpenDir", "lookups", 150000)},
 	})
 }
